@@ -67,29 +67,34 @@ Definition t06_case (k : list nat * option nat * list nat) : bool :=
 Definition c11obs := (list (nat * nat) * list (bool * bool * proj) * (list nat * option (list nat) * list (nat * list nat)))%type.
 Definition c11case := (nat * nat * list (list nat) * list c11obs)%type.
 (* the harness sets dummy's hand right after the first accepted card, for observers other than dummy *)
-Fixpoint t11_walk (deal : list (list nat)) (s : ostate) (started : bool) (ops : list (nat * nat)) (obs : list (bool * bool * proj)) (i : nat) : nat * ostate :=
+Fixpoint t11_walk (late : bool) (deal : list (list nat)) (s : ostate) (started : bool) (ops : list (nat * nat)) (obs : list (bool * bool * proj)) (i : nat) : nat * ostate :=
   match ops, obs with
   | [], [] => (0, s)
   | (c, p) :: os, (ok, unch, pj) :: bs =>
       let (s1, r) := obs_play_by s (cn c) (sn p) in
       let acc := match r with POk => true | PRaises => false end in
       let dm := dummy (obase s) in
-      let s' := if acc && negb started && negb (seat_beq (ome s) dm)
+      let s' := if negb late && acc && negb started && negb (seat_beq (ome s) dm)
                 then set_dummy_hand s1 (if seat_beq (sn p) dm then remove_card (deal_fn deal dm) (cn c) else deal_fn deal dm) else s1 in
+      (* "late" cases: the harness sets dummy's hand after the observer has refused dummy's first play, and offers it again *)
+      let s'' := if late && negb acc && seat_beq (sn p) dm && negb (seat_beq (ome s) dm) && seat_beq (sn p) (pactive (obase s))
+                    && match odummy s with None => true | Some _ => false end
+                 then set_dummy_hand s' (deal_fn deal dm) else s' in
       if Bool.eqb ok acc && Bool.eqb unch (negb acc) && proj_eqb pj (mproj (obase s'))
-      then t11_walk deal s' (started || acc) os bs (S i) else (S i, s)
+      then t11_walk late deal s'' (started || acc) os bs (S i) else (S i, s)
   | _, _ => (S i, s) end.
-Definition t11_observer (b d : nat) (deal : list (list nat)) (me : nat) (o : c11obs) : nat :=
+Definition t11_observer (late : bool) (b d : nat) (deal : list (list nat)) (me : nat) (o : c11obs) : nat :=
   let '(ops, steps, (fh, fd, fhist)) := o in
   match init_obs (kontract b d) (sn me) (deal_fn deal (sn me)) with
   | None => 998
   | Some o0 =>
-    let '(r, f) := t11_walk deal o0 false ops steps 0 in
+    let '(r, f) := t11_walk late deal o0 false ops steps 0 in
     if r =? 0 then
       (if list_eqb Nat.eqb fh (idxs (ohand f)) && opt_eqb (list_eqb Nat.eqb) fd (option_map idxs (odummy f)) && hist_eqb fhist (tricks (obase f))
        then 0 else 1000)
     else r end.
 Definition t11_case (k : c11case) : nat :=
-  let '(b, d, deal, obss) := k in
-  fold_right (fun '(me, o) acc => let r := t11_observer b d deal me o in if r =? 0 then acc else 2000 * (S me) + r)
+  let '(b, d0, deal, obss) := k in
+  let late := 4 <=? d0 in let d := d0 mod 4 in
+  fold_right (fun '(me, o) acc => let r := t11_observer late b d deal me o in if r =? 0 then acc else 2000 * (S me) + r)
              0 (combine (seq 0 4) obss).
